@@ -511,6 +511,15 @@ func (t *tracker) enter(from, to *ssa.BasicBlock) {
 			break
 		}
 		us = append(us, upd{phi, t.vals[phi.Edges[idx]]})
+		// a boolean phi fed by a constant on this edge (`a && b` when a is false) is that constant on this path:
+		// it decides the branch on a helper's result like a constant return does
+		if b, isBasic := phi.Type().Underlying().(*types.Basic); isBasic && b.Kind() == types.Bool {
+			if rv := t.resolve(phi.Edges[idx]); rv != ssa.Value(phi) {
+				t.subst[phi] = rv
+			} else {
+				delete(t.subst, phi)
+			}
+		}
 	}
 	for _, u := range us {
 		if u.on {
@@ -1285,6 +1294,21 @@ func originsDeepIn(c *Ctx, v ssa.Value, home *ssa.Function) []ssa.Value {
 			}
 			seen[og] = true
 			if depth < 3 {
+				// a variable captured from the enclosing function: what the parent stored into it
+				var fvar *ssa.FreeVar
+				if ld, ok := og.(*ssa.UnOp); ok && ld.Op == token.MUL {
+					fvar, _ = ld.X.(*ssa.FreeVar)
+				} else if fv, ok := og.(*ssa.FreeVar); ok {
+					fvar = fv
+				}
+				if fvar != nil {
+					if vals := capturedCellValues(fvar); len(vals) > 0 {
+						for _, w := range vals {
+							rec(w, depth+1, nil)
+						}
+						continue
+					}
+				}
 				if p, ok := og.(*ssa.Parameter); ok {
 					f := p.Parent()
 					if f != nil && f != home && f.Pkg == c.Moss && !isExportedRoot(f) {
@@ -1346,5 +1370,48 @@ func originsDeepIn(c *Ctx, v ssa.Value, home *ssa.Function) []ssa.Value {
 		}
 	}
 	rec(v, 0, nil)
+	return out
+}
+
+// capturedCellValues: the values the enclosing function stores into the variable that the closure captured as fv
+// (or the value itself when it is captured by value).
+func capturedCellValues(fv *ssa.FreeVar) []ssa.Value {
+	g := fv.Parent()
+	if g == nil || g.Parent() == nil {
+		return nil
+	}
+	idx := -1
+	for k, v := range g.FreeVars {
+		if v == fv {
+			idx = k
+		}
+	}
+	if idx < 0 {
+		return nil
+	}
+	var out []ssa.Value
+	eachInstr(g.Parent(), func(i ssa.Instruction) {
+		mc, ok := i.(*ssa.MakeClosure)
+		if !ok || mc.Fn != ssa.Value(g) || idx >= len(mc.Bindings) {
+			return
+		}
+		b := mc.Bindings[idx]
+		cell, isCell := b.(*ssa.Alloc)
+		if !isCell {
+			if pfv, isFV := b.(*ssa.FreeVar); isFV {
+				out = append(out, capturedCellValues(pfv)...)
+			} else {
+				out = append(out, b)
+			}
+			return
+		}
+		if refs := cell.Referrers(); refs != nil {
+			for _, r := range *refs {
+				if st, isSt := r.(*ssa.Store); isSt && st.Addr == ssa.Value(cell) {
+					out = append(out, st.Val)
+				}
+			}
+		}
+	})
 	return out
 }
